@@ -1,6 +1,7 @@
 //! vharness: drives the real vibrato implementation on generated cases and prints
 //! one protocol line per case (input + implementation observation).
 mod corpus;
+mod csvs;
 mod gen;
 mod image;
 mod rewrite;
@@ -27,16 +28,28 @@ fn tok_profile(profile: &str, seed: u64, n: usize, out: &mut dyn Write) {
             _ => {}
         }
         let mut drng = rng.fork();
-        let d = gen_dict(&mut drng, &cfg);
+        if profile == "c10" {
+            cfg.cover_unk = drng.chance(9, 10);
+        }
+        let mut d = gen_dict(&mut drng, &cfg);
+        let mut corruption = String::new();
+        if profile == "c10" && drng.chance(5, 6) {
+            corruption = corrupt(&mut drng, &mut d);
+        }
         let dname = format!("d{seed}_{dict_no}");
         dict_no += 1;
         let (line, dict) = tok::def_line(&dname, &d);
-        writeln!(out, "{line}").unwrap();
+        if profile == "c10" {
+            writeln!(out, "{line} ## CORRUPTION={}", if corruption.is_empty() { "none" } else { &corruption }).unwrap();
+            made += 1;
+        } else {
+            writeln!(out, "{line}").unwrap();
+        }
         if dict.is_none() {
             continue;
         }
         drop(dict);
-        let per_dict = 6 + rng.below(10);
+        let per_dict = if profile == "c10" { 3 } else { 6 + rng.below(10) };
         for _ in 0..per_dict {
             if made >= n {
                 break;
@@ -140,6 +153,153 @@ fn tok_profile(profile: &str, seed: u64, n: usize, out: &mut dyn Write) {
     }
 }
 
+/// Single-edit corruptions of valid definition files (stream `tok c10`).
+fn corrupt(rng: &mut Rng, d: &mut gen::DictSrc) -> String {
+    let which = rng.below(4);
+    let name = ["lex", "matrix", "char", "unk"][which];
+    let file: &mut Vec<u8> = match which {
+        0 => &mut d.lex,
+        1 => &mut d.matrix,
+        2 => &mut d.chardef,
+        _ => &mut d.unk,
+    };
+    let mut bytes = std::mem::take(file);
+    let kind = rng.below(16);
+    let label;
+    match kind {
+        0 => {
+            bytes.clear();
+            label = "empty";
+        }
+        1 if !bytes.is_empty() => {
+            let p = rng.below(bytes.len());
+            bytes.remove(p);
+            label = "delete-byte";
+        }
+        2 => {
+            let p = rng.below(bytes.len() + 1);
+            bytes.insert(p, *rng.pick(&[b',', b' ', b'\n', b'\r', b'0', b'9', b'x', b'#', b'"', b'-', b'.', 0xff, 0xe3]));
+            label = "insert-byte";
+        }
+        3 if !bytes.is_empty() => {
+            let p = rng.below(bytes.len());
+            bytes[p] = *rng.pick(&[b',', b' ', b'\n', b'1', b'7', b'Z', b'\t', 0x80]);
+            label = "replace-byte";
+        }
+        4 if !bytes.is_empty() => {
+            let p = rng.below(bytes.len());
+            bytes.truncate(p);
+            label = "cut";
+        }
+        5 => {
+            // drop or duplicate a field of a random line
+            let text = String::from_utf8_lossy(&bytes).to_string();
+            let mut lines: Vec<String> = text.lines().map(|l| l.to_string()).collect();
+            if !lines.is_empty() {
+                let li = rng.below(lines.len());
+                let sep = if which == 0 || which == 3 { ',' } else { ' ' };
+                let mut cols: Vec<String> = lines[li].split(sep).map(|c| c.to_string()).collect();
+                let ci = rng.below(cols.len());
+                if rng.chance(1, 2) {
+                    cols.remove(ci);
+                } else {
+                    let c = cols[ci].clone();
+                    cols.insert(ci, c);
+                }
+                lines[li] = cols.join(&sep.to_string());
+            }
+            bytes = (lines.join("\n") + "\n").into_bytes();
+            label = "drop-or-dup-field";
+        }
+        6 => {
+            let text = String::from_utf8_lossy(&bytes).to_string();
+            let mut lines: Vec<&str> = text.lines().collect();
+            if lines.len() >= 2 {
+                let a = rng.below(lines.len());
+                let b = rng.below(lines.len());
+                lines.swap(a, b);
+            }
+            bytes = (lines.join("\n") + "\n").into_bytes();
+            label = "swap-lines";
+        }
+        7 => {
+            // a number out of range
+            let text = String::from_utf8_lossy(&bytes).to_string();
+            let big = *rng.pick(&["65536", "70000", "-1", "32768", "-32769", "99999999999999999999", "+3", "1.5", "0x1"]);
+            let mut out = String::new();
+            let mut done = false;
+            for tok in text.split_inclusive(|c: char| c == ',' || c == ' ' || c == '\n') {
+                let core = tok.trim_end_matches(|c: char| c == ',' || c == ' ' || c == '\n');
+                if !done && !core.is_empty() && core.chars().all(|c| c.is_ascii_digit() || c == '-') && rng.chance(1, 3) {
+                    out.push_str(big);
+                    out.push_str(&tok[core.len()..]);
+                    done = true;
+                } else {
+                    out.push_str(tok);
+                }
+            }
+            bytes = out.into_bytes();
+            label = "number-out-of-range";
+        }
+        8 => {
+            bytes = String::from_utf8_lossy(&bytes).replace('\n', "\r\n").into_bytes();
+            label = "crlf";
+        }
+        9 => {
+            let mut b = vec![0xef, 0xbb, 0xbf];
+            b.extend_from_slice(&bytes);
+            bytes = b;
+            label = "bom";
+        }
+        10 => {
+            while bytes.last() == Some(&b'\n') {
+                bytes.pop();
+            }
+            label = "no-final-newline";
+        }
+        11 => {
+            bytes.extend_from_slice(b"\n\n");
+            label = "trailing-blank-lines";
+        }
+        12 => {
+            // targeted: undefined names
+            let s = String::from_utf8_lossy(&bytes).replace("SPACE", "SPACEX").replacen("DEFAULT", "DEFAULTX", 1);
+            bytes = s.into_bytes();
+            label = "undefined-name";
+        }
+        13 if which == 2 => {
+            let extra = *rng.pick(&[
+                "BIG 0 0 16\n", "BIG 1 1 65535\n", "0x0041 DEFAULT UNDEFINED\n", "0x0041 #nothing\n", "0x0041\n",
+                "0x0041..0x0040 DEFAULT\n", "0x10000 DEFAULT\n", "0xFFFF..0x10000 DEFAULT\n", "0x..0x41 DEFAULT\n",
+                "0xFFFFFFFFFFFFFFFFF DEFAULT\n", "X 2 0 0\n", "X 0 0\n",
+            ]);
+            bytes.extend_from_slice(extra.as_bytes());
+            label = "chardef-targeted";
+        }
+        14 if which == 2 => {
+            // many categories
+            let n = *rng.pick(&[17usize, 18, 19, 30, 40, 260]);
+            let mut s = String::new();
+            for i in 0..n {
+                s.push_str(&format!("M{i} 0 1 0\n"));
+            }
+            s.push_str(&format!("0x0061 M{}\n", n - 1));
+            bytes.extend_from_slice(s.as_bytes());
+            label = "chardef-many-categories";
+        }
+        _ => {
+            let p = rng.below(bytes.len() + 1);
+            let junk: Vec<u8> = (0..1 + rng.below(6)).map(|_| rng.below(256) as u8).collect();
+            for (k, b) in junk.iter().enumerate() {
+                bytes.insert(p + k, *b);
+            }
+            label = "random-bytes";
+        }
+    }
+    *file = bytes;
+    format!("{name}:{label}")
+}
+
 fn main() {
     std::panic::set_hook(Box::new(|_| {}));
     let args: Vec<String> = std::env::args().collect();
@@ -165,6 +325,11 @@ fn main() {
             let seed: u64 = args[3].parse().unwrap();
             let n: usize = args[4].parse().unwrap();
             image::run(&args[2], seed, n, &mut out);
+        }
+        "csv" => {
+            let seed: u64 = args[2].parse().unwrap();
+            let n: usize = args[3].parse().unwrap();
+            csvs::run(seed, n, &mut out);
         }
         "corpus" => {
             let seed: u64 = args[2].parse().unwrap();
